@@ -1191,6 +1191,11 @@ func (c *Canonicalizer) writeSelect(w *strings.Builder, i *ssa.Select, context s
 
 func (c *Canonicalizer) writePhi(w *strings.Builder, i *ssa.Phi, instr ssa.Instruction) {
 	w.WriteString("Phi")
+	// The width of a variable whose incoming values are all constants is written nowhere else
+	// (x := int8(100); if c { x = 27 }; x += x): say it here unless it is plain int.
+	if t := i.Type(); t != nil && !types.Identical(t, types.Typ[types.Int]) {
+		w.WriteString(":" + sanitizeType(t))
+	}
 	type edge struct {
 		predID    string
 		predIndex int
@@ -1372,6 +1377,11 @@ func (c *Canonicalizer) funcRefName(f *ssa.Function) string {
 		if cur != nil && pkg != nil && pkg != cur.Pkg {
 			return f.String()
 		}
+		// A method of this package is named together with its receiver type: T(3).Foo() and
+		// U(3).Foo() are different callees even when the receiver is a constant.
+		if f.Signature != nil && f.Signature.Recv() != nil {
+			return "(" + sanitizeType(f.Signature.Recv().Type()) + ")." + f.Name()
+		}
 		return f.Name()
 	}
 	return "$self" + strings.TrimPrefix(f.Name(), root.Name())
@@ -1417,6 +1427,12 @@ func sanitizeType(t types.Type) string {
 		res = fmt.Sprintf("func(%s)%s", strings.Join(params, ", "), resStr)
 	} else {
 		res = types.TypeString(t, packageQualifier)
+		// A type declared inside a function body prints like a package-level one of that name,
+		// whatever it stands for (type cell int8 vs type cell int16): add what it stands for.
+		if named, ok := types.Unalias(t).(*types.Named); ok && named.Obj() != nil && named.Obj().Pkg() != nil &&
+			named.Obj().Parent() != nil && named.Obj().Parent() != named.Obj().Pkg().Scope() && named.TypeArgs().Len() == 0 {
+			res += "=" + types.TypeString(named.Underlying(), packageQualifier)
+		}
 	}
 
 	return strings.ReplaceAll(res, "\n", " ")
